@@ -116,6 +116,9 @@ def r14_2(run, model):
                 if acts:
                     filt.append((S.norm_ws(run.facts.text(SEP, iff["cond"]["sp"])), "/".join(acts)))
         t["import filter"] = ("same conditions", sorted(filt))
+        writes = sorted(re.sub(r"\.clone\(\)", "", S.norm_ws(run.facts.text(SEP, c["sp"]))) for c in S.walk(f.body) if c["k"] == "MethodCall" and c["method"] in ("insert", "entry", "extend", "or_insert_with", "or_insert")
+                        and "dep_hashes" in S.idents(c["recv"]))
+        t["dependency pins"] = ("same writes to dep_hashes", writes)
         t["loader"] = "load_interface_from_paths(&dep,&opts.interface_paths)?" in body
         m = re.search(r"typecheck_single_package\(([^;]*?)\);", body)
         t["typecheck args"] = m.group(1) if m else None
@@ -343,6 +346,37 @@ def r14_15(run, model):
                    "build orders [a.gom, main.gom]; the caller is lifted before / after its callee and only one pipeline emits valid Go")
 
 
+def r14_16(run, model):
+    run.rule("R14.16", "a dependency's interface is looked for in every --interface-path directory: load_interface_from_paths moves on to the "
+                       "next directory when *the candidate file* is not there (a test on the candidate, or a NotFound read error, leads to "
+                       "`continue`) - a project whose interfaces live in two directories is valid and whole-program compilation accepts it")
+    f = model.fn("load_interface_from_paths", SEP)
+    loops = [l for l in S.find(f.body, "For") if "interface_paths" in S.idents(l["iter"])]
+    if not loops:
+        raise AnalysisIncomplete("load_interface_from_paths: loop over the search path not found")
+    loop = loops[0]
+    cand = None
+    for l in S.find(loop["body"], "Local"):
+        if l["pat"]["k"] == "PIdent" and l.get("init") is not None and ".interface" in S.norm_ws(run.facts.text(SEP, l["init"]["sp"])):
+            cand = l["pat"]["name"]
+    if cand is None:
+        raise AnalysisIncomplete("load_interface_from_paths: candidate path binding not found")
+    par = S.Parents(loop["body"])
+    skips = []
+    for c in S.walk_no_closures(loop["body"]):
+        if c["k"] != "Continue":
+            continue
+        conds = [a for a in par.ancestors(c) if a["k"] in ("If", "Match")]
+        if conds:
+            g = conds[0]
+            ct = S.norm_ws(run.facts.text(SEP, (g.get("cond") or g.get("scrut"))["sp"]))
+            skips.append((cand in S.idents(g.get("cond") or g.get("scrut")) or "NotFound" in S.norm_ws(run.facts.text(SEP, g["sp"])), ct))
+    ok = any(x for x, _ in skips)
+    run.ob("R14.16", "load_interface_from_paths|a missing candidate file leads to the next search directory", ok, site(SEP, loop["sp"]),
+           f"candidate bound as `{cand}`; skips: {[c for _, c in skips]}",
+           witness="build --interface-path out --interface-path libs with Shapes.interface in libs/: `failed to read interface out/Shapes.interface`")
+
+
 def r14_10(run, model):
     run.rule("R14.10", "a program of ordinary size survives the trip through a .core file: Core nests one level per `let`, so the function that "
                        "deserialises a CoreUnit disables serde_json's recursion limit (default 128: about 60 sequential lets)")
@@ -422,6 +456,7 @@ def run(run, model):
     run.try_rule(r14_12, model)
     run.try_rule(r14_14, model)
     run.try_rule(r14_15, model)
+    run.try_rule(r14_16, model)
     run.try_rule(r14_2, model)
     from rules import c16
     run.rule("R14.7", "both pipelines type-check a package against the environments of its own imports only (shared with C16 R16.5): a "
